@@ -1,6 +1,6 @@
 (* C08 — pinned property theorems.  Only: Theorem / exact lemma / Check pin / Print Assumptions (+ Examples). *)
 From Coq Require Import List Arith Bool.
-From C08 Require Import Model_C08 Proofs_C08.
+From C08 Require Import Model_C08 Proofs_C08 Deep_C08.
 Import ListNotations.
 
 (* the check is sound: a walk that avoids cut nodes (IncrementLoopIteration) has at most |g| vertices *)
@@ -101,6 +101,51 @@ Check under_limit_unaffected : forall P lim lim' chs s, lim_le lim lim' ->
   run P lim' chs s = run P lim chs s.
 Print Assumptions under_limit_unaffected.
 
+(* ---- deepening round ---- *)
+
+(* total work of one evaluation/job: if every code block passes the check (ranking family RK), blocks have at most M
+   instructions and every call names a non-empty block, then the whole run - all activations, any tree of callees, any
+   choice sequence, unwinding included - executes fewer than ((L+2)*M + 1)^max(1,R) iterations of Context::run before it
+   returns to the host *)
+Theorem total_work_bounded : forall P lim RK M chs s f,
+  (forall c, counters_cut_cycles (cfg_of (code_of P c)) (RK c) = true) ->
+  (forall c, length (c_ins (code_of P c)) <= M) ->
+  calls_ok P ->
+  st_frames s = [f] -> f_pc f < length (c_ins (code_of P (f_code f))) -> f_loops f <= lim_loop lim + 1 ->
+  total_steps P lim chs s <= ((lim_loop lim + 2) * M + 1) ^ (S (lim_rec lim - 1)).
+Proof. exact total_work_bounded_l. Qed.
+Check total_work_bounded : forall P lim RK M chs s f,
+  (forall c, counters_cut_cycles (cfg_of (code_of P c)) (RK c) = true) ->
+  (forall c, length (c_ins (code_of P c)) <= M) ->
+  calls_ok P ->
+  st_frames s = [f] -> f_pc f < length (c_ins (code_of P (f_code f))) -> f_loops f <= lim_loop lim + 1 ->
+  total_steps P lim chs s <= ((lim_loop lim + 2) * M + 1) ^ (S (lim_rec lim - 1)).
+Print Assumptions total_work_bounded.
+
+(* a native iteration loop that charges the caller's loop counter per step (patched IteratorRecord::step) is bounded like
+   a bytecode loop, in any program and for any callee behaviour *)
+Theorem native_iteration_bounded : forall P lim cid next chs s f rest,
+  code_of P cid = native_iter_code true next ->
+  st_frames s = f :: rest -> f_code f = cid -> f_loops f = 0 -> f_pc f < 4 ->
+  own_steps P lim (length (st_frames s)) chs s <= (lim_loop lim + 2) * 4.
+Proof. exact native_iteration_bounded_l. Qed.
+Check native_iteration_bounded : forall P lim cid next chs s f rest,
+  code_of P cid = native_iter_code true next ->
+  st_frames s = f :: rest -> f_code f = cid -> f_loops f = 0 -> f_pc f < 4 ->
+  own_steps P lim (length (st_frames s)) chs s <= (lim_loop lim + 2) * 4.
+Print Assumptions native_iteration_bounded.
+
+(* the uncharged loop (the tree as found: known finding native-iteration-not-counted) is stopped by no limit triple that
+   leaves room for one callback: the activation executes arbitrarily many instructions, whatever the loop limit *)
+Theorem native_iteration_unbounded_without_charge : forall lim n,
+  2 <= lim_rec lim -> 3 <= lim_stack lim ->
+  exists chs, n <= own_steps ni_prog lim 1 chs (ni_state []).
+Proof. exact native_iteration_unbounded_without_charge_l. Qed.
+Check native_iteration_unbounded_without_charge : forall lim n,
+  2 <= lim_rec lim -> 3 <= lim_stack lim ->
+  exists chs, n <= own_steps ni_prog lim 1 chs (ni_state []).
+Print Assumptions native_iteration_unbounded_without_charge.
+
 (* hypotheses are satisfiable *)
 Example demo_check : counters_cut_cycles (cfg_of (code_of (demo_prog Propagate) 1)) [1; 0] = true.
 Proof. reflexivity. Qed.
@@ -112,3 +157,24 @@ Proof. eexists. split; vm_compute; reflexivity. Qed.
 Example demo_plain_loop_rejected : forall r, counters_cut_cycles [mkNode false [1]; mkNode false [0]] r = false.
 Proof. intros r. apply (plain_cycle_rejected _ r [1] 0); cbn; [repeat split; eexists; split; try reflexivity; now left|].
   intros x [<-|[<-|[]]]; reflexivity. Qed.
+
+Example demo_total_work : forall chs,
+  total_steps (demo_prog Propagate) demo_lim chs demo_state <= ((2 + 2) * 3 + 1) ^ 16.
+Proof.
+  intros chs.
+  apply (total_work_bounded (demo_prog Propagate) demo_lim
+           (fun c => match c with 0 => [0; 1; 2] | 1 => [1; 0] | _ => [] end) 3 chs demo_state
+           (new_frame 0 true 0 Propagate)).
+  - intros [|[|[|c]]]; reflexivity.
+  - intros [|[|[|c]]]; cbn; auto.
+  - intros cd pc ins c Hn Hc. unfold code_of in *.
+    destruct cd as [|[|[|cd]]]; cbn in Hn |- *.
+    + destruct pc as [|[|[|pc]]]; cbn in Hn; try (destruct pc; discriminate); inversion Hn; subst; cbn in Hc; try discriminate.
+      inversion Hc; subst; cbn; auto.
+    + destruct pc as [|[|pc]]; cbn in Hn; try (destruct pc; discriminate); inversion Hn; subst; cbn in Hc; discriminate.
+    + destruct pc; cbn in Hn; discriminate.
+    + destruct cd; destruct pc; cbn in Hn; discriminate.
+  - reflexivity.
+  - cbn. auto.
+  - cbn. auto.
+Qed.
